@@ -53,6 +53,12 @@ func (d *devWorld) start(ch *kernel.Chooser) string {
 		p = rightPresentation(w, client)
 	}
 	scopes := append([]string{oidc.ScopeOpenID}, ch.Subset([]string{oidc.ScopeEmail, oidc.ScopeProfile, oidc.ScopeOfflineAccess})...)
+	if ch.Bool(1, 3) {
+		// scopes of the application's own, known to the client's registration or not: the device grant has no scope
+		// validation of its own, what the device asked for is what the user is shown and what the tokens carry
+		scopes = append(scopes, []string{"api", "read:things", "custom:x"}[ch.Int(3)])
+		w.O.Probe("device-requests-with-a-scope-of-the-application's-own")
+	}
 	r := w.PostForm("/device_authorization", url.Values{"scope": {strings.Join(scopes, " ")}}, p.creds)
 	desc := fmt.Sprintf("device_authorization by %s (%s) -> %d", client, p.label, statusOf(r))
 	if panicProbe(d.o, r) || r.Err != nil {
